@@ -333,6 +333,8 @@ class Grammar:
             for fn in n.actions:
                 if self.trace is not None:
                     self.trace.append((fn, n, start))
+                if getattr(self, "tok_trace", None) is not None:
+                    self.tok_trace.append((fn, toks))          # the tokens the action is handed (for rules that replay an action)
                 r = self._call(fn, s, start, toks)
                 if r is not None and r is not toks:
                     if isinstance(r, GenVal):
